@@ -12,7 +12,7 @@ from twisted.internet import task
 from twisted.internet.address import IPv4Address
 from twisted.internet.testing import StringTransportWithDisconnection
 
-OPC = {"text": 0x1, "binary": 0x2, "close": 0x8, "ping": 0x9, "pong": 0xA}
+OPC = {"cont": 0x0, "text": 0x1, "binary": 0x2, "close": 0x8, "ping": 0x9, "pong": 0xA}
 
 
 # ---------------------------------------------------------------- independent RFC 6455 codec
